@@ -69,7 +69,18 @@ def q_fresh_int(ex, args, kwargs):
     return ex.fresh_sym('int', 'ghost')
 
 
+def q_at(ex, args, kwargs):
+    seq, i = args
+    saved = ex.spec_mode
+    ex.spec_mode += 1
+    try:
+        return ex.subscript(seq, i)
+    finally:
+        ex.spec_mode = saved
+
+
 SPEC_FORMS = {
+    C.at: q_at,
     C.forall: q_forall,
     C.exists: q_exists,
     C.implies: q_implies,
